@@ -93,6 +93,8 @@ type sim struct {
 	nonTrivial   bool
 	sawRollover  bool
 	hung            bool
+	tracePoints     []simfs.IOPoint
+	fileBeforeTx    uint32
 	crashedInCommit bool
 }
 
@@ -585,6 +587,14 @@ func (s *sim) compareOp(o *txOp, tc *txCtx, m, r []string, lenient bool) bool {
 				s.r.Probe("cursor_skipped_pairs_on_io_error")
 				return false
 			}
+			if i < len(m) && (m[i] == "E:ErrBucketExists" || m[i] == "E:ErrBlockExists") && r[i] == "ok" &&
+				(s.firedKind == "io_read_err" || s.firedKind == "io_open_err" || s.firedKind == "ldb_storage_err") {
+				// the existence check read "absent" because the failed read was
+				// swallowed: the store accepts re-creating what exists
+				s.r.Violate(prop, "no-wrong-bytes", "read-error-treated-as-absent",
+					"op %s during injected %s: real=%v model=%v", o, s.firedKind, r, m)
+				return false
+			}
 			if r[i] == "ok" && i == len(r)-1 && i < len(m) {
 				// an iteration cut short by the injected error that still
 				// reports success: every returned pair was right
@@ -868,6 +878,9 @@ func (s *sim) beforeCommit(st *txStep) {
 
 func (s *sim) afterCommit() {
 	s.inCommit = false
+	if f, _ := s.model.WriteCursor(); f != s.fileBeforeTx {
+		s.rolled = true // the commit rolled over, whether or not it then failed or crashed
+	}
 	s.noteFlush(true)
 }
 
@@ -875,7 +888,8 @@ func (s *sim) afterCommit() {
 // attempted on the real store (in flight when a fault fired), and the real
 // commit error.
 func (s *sim) runTx(st *txStep) (commitAttempted bool, commitErr error) {
-	filesBefore := len(s.model.Files())
+	fileBefore, _ := s.model.WriteCursor()
+	s.fileBeforeTx = fileBefore
 	var lastR, lastM database.Tx
 	if st.managed {
 		var merr, inner error
@@ -978,11 +992,15 @@ func (s *sim) runTx(st *txStep) (commitAttempted bool, commitErr error) {
 			}
 		}
 	}
+	if commitAttempted {
+		if f, _ := s.model.WriteCursor(); f != fileBefore {
+			s.rolled = true // also when the real commit then failed or crashed
+		}
+	}
 	if commitAttempted && commitErr == nil {
 		s.commits++
 		s.nonTrivial = true
-		if files := s.model.Files(); len(files) > filesBefore && filesBefore >= 1 {
-			s.rolled = true
+		if f, _ := s.model.WriteCursor(); f != fileBefore {
 			s.r.Probe("file_rollover")
 		}
 		if s.commitPrune && s.prunedFile {
@@ -1126,10 +1144,26 @@ func (s *sim) adopt(n int) {
 
 func firstDiff(a, b string) string {
 	la, lb := strings.Split(a, "\n"), strings.Split(b, "\n")
-	for i := 0; i < len(la) || i < len(lb); i++ {
-		if at(la, i) != at(lb, i) {
-			return fmt.Sprintf("line %d: real %q / model %q", i, at(la, i), at(lb, i))
+	inA, inB := map[string]bool{}, map[string]bool{}
+	for _, l := range la {
+		inA[l] = true
+	}
+	for _, l := range lb {
+		inB[l] = true
+	}
+	var onlyA, onlyB []string
+	for _, l := range la {
+		if !inB[l] && len(onlyA) < 6 {
+			onlyA = append(onlyA, l)
 		}
 	}
-	return "equal"
+	for _, l := range lb {
+		if !inA[l] && len(onlyB) < 6 {
+			onlyB = append(onlyB, l)
+		}
+	}
+	if len(onlyA) == 0 && len(onlyB) == 0 {
+		return "equal as sets of lines (order differs)"
+	}
+	return fmt.Sprintf("only in the store %q / only in the model %q", onlyA, onlyB)
 }
